@@ -24,14 +24,24 @@ class Clock:
 
 
 K2 = 7.0     # constant of the shadow manager "sm2" (never touched by settings)
+GRID = [1.0, 1.0]   # (start, dt) of the reference model of the current Srv; Server.tla counts steps 1, 2, 3, ... and integrates per step
 
 
-def make_factory(stop, base_constants=False, two=False):
+def spec_t(t):
+    """model time -> the step number the specification uses (start -> 1)"""
+    return 1.0 + (float(t) - GRID[0]) / GRID[1]
+
+
+def spec_s(v):
+    return float(v) / GRID[1]
+
+
+def make_factory(stop, base_constants=False, two=False, grid=(1.0, 1.0)):
     BPTK_Py = use_repo()
     from BPTK_Py import Model
 
     def factory():
-        model = Model(starttime=1.0, stoptime=float(stop), dt=1.0, name="ref")
+        model = Model(starttime=grid[0], stoptime=grid[0] + (float(stop) - 1.0) * grid[1], dt=grid[1], name="ref")
         k = model.constant("k"); f = model.flow("f"); s = model.stock("s")
         s.initial_value = 0.0
         s.equation = f
@@ -49,7 +59,8 @@ def make_factory(stop, base_constants=False, two=False):
 
 
 class Srv:
-    def __init__(self, stop=4, adapter=False, compress=False, token=None, unit="seconds", state_dir=None, base_constants=False, two=False):
+    def __init__(self, stop=4, adapter=False, compress=False, token=None, unit="seconds", state_dir=None, base_constants=False, two=False, grid=(1.0, 1.0)):
+        GRID[0], GRID[1] = float(grid[0]), float(grid[1])
         self.BPTK_Py = use_repo()
         self.srvmod = importlib.import_module("BPTK_Py.server.bptkServer")
         self.esamod = importlib.import_module("BPTK_Py.externalstateadapter.externalStateAdapter")
@@ -59,7 +70,7 @@ class Srv:
         self.esamod.datetime = self.clock
         self.stop, self.unit, self.token, self.compress = stop, unit, token, compress
         self.two = two
-        self.factory = make_factory(stop, base_constants, two)
+        self.factory = make_factory(stop, base_constants, two, grid)
         self.own_dir = adapter and state_dir is None
         self.state_dir = (state_dir or tempfile.mkdtemp(prefix="vstate_")) if adapter else None
         self.ids = {}       # symbolic -> uuid
@@ -180,12 +191,12 @@ class Srv:
     def alive(self):
         st, d = self.req("GET", "/full-metrics", cred=None)
         inv = {v: k for k, v in self.ids.items()}
-        return st, sorted(inv[k] for k in d if k in inv), {inv[k]: d[k]["step"] for k in d if k in inv}, d
+        return st, sorted(inv[k] for k in d if k in inv), {inv[k]: spec_t(d[k]["step"]) for k in d if k in inv}, d
 
 
 def _shadow_ok(eqs, t):
     """the shadow manager sm2 is never touched by settings: s = K2*(t-1), f = k = K2"""
-    return abs(eqs["s"][t] - K2 * (float(t) - 1)) < 1e-9 and abs(eqs["f"][t] - K2) < 1e-9 and abs(eqs["k"][t] - K2) < 1e-9
+    return abs(spec_s(eqs["s"][t]) - K2 * (spec_t(t) - 1)) < 1e-9 and abs(eqs["f"][t] - K2) < 1e-9 and abs(eqs["k"][t] - K2) < 1e-9
 
 
 def row_of(data, sc, two=False):
@@ -207,7 +218,7 @@ def row_of(data, sc, two=False):
         if len(ts) != 1:
             return {"bad": "times %s" % sorted(ts)}
         t = list(ts)[0]
-        return {"t": float(t), "s": eqs["s"][t], "f": eqs["f"][t], "k": eqs["k"][t]}
+        return {"t": spec_t(t), "s": spec_s(eqs["s"][t]), "f": eqs["f"][t], "k": eqs["k"][t]}
     except Exception as e:
         return {"bad": "%s: %s in %s" % (type(e).__name__, e, json.dumps(data)[:200])}
 
@@ -228,12 +239,12 @@ def rows_of(data, sc, two=False):
         ts = sorted(set(float(t) for e in eqs.values() for t in e))
         out = []
         for t in ts:
-            r = {"t": t}
+            r = {"t": spec_t(t)}
             for e in ("s", "f", "k"):
                 vals = [v for tt, v in eqs[e].items() if float(tt) == t]
                 if len(vals) != 1:
                     return [{"bad": "equation %s at %s: %s" % (e, t, vals)}]
-                r[e] = vals[0]
+                r[e] = spec_s(vals[0]) if e == "s" else vals[0]
             out.append(r)
         return out
     except Exception as e:
